@@ -1,6 +1,6 @@
 /-
-C08 — non-identifiable voxels: when the (penalised) gradient vanishes on the voxels with zero sensitivity — the case without
-a prior — they stay exactly 0 for the whole run, so `fill_nonidentifiable_target_parameters` does nothing to a saved iterate.
+C08 — non-identifiable voxels: `fill_nonidentifiable_target_parameters(·,0)` is idempotent, and when the (penalised) gradient
+vanishes on the voxels with zero sensitivity — the case without a prior — every iterate is exactly 0 there.
 -/
 import StirVerif.C08.ProofsRun
 
@@ -55,15 +55,15 @@ theorem fillMask_eq_self (mask : List Bool) (img : Img) (hlen : img.length ≤ m
 /-- one sub-iteration keeps the masked voxels at 0 when the gradient vanishes there -/
 theorem updateEstimate_zeroOn (p : Params) (obj : Objective) (start : Int) (s : State) (mask : List Bool)
     (hub : 0 ≤ p.upperBound)
-    (hx : ZeroOn mask (currentImage obj (s.k == start) s.image))
+    (hx : ZeroOn mask (currentImage obj s.image))
     (hg : ∀ S y, ZeroOn mask (obj.grad S y)) :
     ZeroOn mask (updateEstimate p obj start s).image := by
   intro j hm v hv
   unfold updateEstimate additiveUpdate at hv
   simp only [List.getElem?_map, List.getElem?_zipWith] at hv
-  generalize hxe : (currentImage obj (s.k == start) s.image)[j]? = ox at hv
-  generalize hge : (obj.grad (subsetNum s.k p.startSubset p.numSubsets) (currentImage obj (s.k == start) s.image))[j]? = og at hv
-  generalize hde : (denomUsed obj (s.k == start) (currentImage obj (s.k == start) s.image) s.denom)[j]? = od at hv
+  generalize hxe : (currentImage obj s.image)[j]? = ox at hv
+  generalize hge : (obj.grad (subsetNum s.k p.startSubset p.numSubsets) (currentImage obj s.image))[j]? = og at hv
+  generalize hde : (denomUsed obj (s.k == start) (currentImage obj s.image) s.denom)[j]? = od at hv
   cases ox with
   | none => cases og <;> cases od <;> simp at hv
   | some xj =>
@@ -82,7 +82,7 @@ theorem updateEstimate_zeroOn (p : Params) (obj : Objective) (start : Int) (s : 
         intro h; linarith
 
 theorem updateEstimate_length_le (p : Params) (obj : Objective) (start : Int) (s : State) :
-    (updateEstimate p obj start s).image.length ≤ (currentImage obj (s.k == start) s.image).length := by
+    (updateEstimate p obj start s).image.length ≤ (currentImage obj s.image).length := by
   unfold updateEstimate
   simp only [List.length_map, List.length_zipWith]
   exact Nat.min_le_left _ _
@@ -97,29 +97,26 @@ theorem loop_zeroOn (p : Params) (obj : Objective) (start : Int) (mask : List Bo
   | zero =>
     show ZeroOn mask (updateEstimate p obj start ⟨img, d, start⟩).image ∧
       (updateEstimate p obj start ⟨img, d, start⟩).image.length ≤ img.length
-    have hcur : currentImage obj ((⟨img, d, start⟩ : State).k == start) img = fillMask mask img := by
-      unfold currentImage; simp [hfill]
+    have hcur : currentImage obj img = fillMask mask img := by
+      unfold currentImage; rw [hfill]
     refine ⟨?_, ?_⟩
     · apply updateEstimate_zeroOn p obj start _ mask hub _ hg
-      show ZeroOn mask (currentImage obj ((⟨img, d, start⟩ : State).k == start) img)
+      show ZeroOn mask (currentImage obj img)
       rw [hcur]; exact zeroOn_fillMask mask img
     · refine le_trans (updateEstimate_length_le p obj start _) ?_
-      show (currentImage obj ((⟨img, d, start⟩ : State).k == start) img).length ≤ img.length
+      show (currentImage obj img).length ≤ img.length
       rw [hcur]; exact fillMask_length_le mask img
   | succ n ih =>
     rw [loop_succ]
-    have hk : (loop p obj start (n + 1) ⟨img, d, start⟩).k = start + (n + 1 : Nat) := loop_k p obj start (n + 1) _
-    have hne : ((loop p obj start (n + 1) ⟨img, d, start⟩).k == start) = false := by
-      rw [hk]; simp; omega
-    have hcur : currentImage obj ((loop p obj start (n + 1) ⟨img, d, start⟩).k == start)
-        (loop p obj start (n + 1) ⟨img, d, start⟩).image = (loop p obj start (n + 1) ⟨img, d, start⟩).image := by
-      rw [hne]; unfold currentImage; simp
+    have hcur : currentImage obj (loop p obj start (n + 1) ⟨img, d, start⟩).image
+        = fillMask mask (loop p obj start (n + 1) ⟨img, d, start⟩).image := by
+      unfold currentImage; rw [hfill]
     refine ⟨?_, ?_⟩
     · show ZeroOn mask (updateEstimate p obj start (loop p obj start (n + 1) ⟨img, d, start⟩)).image
       apply updateEstimate_zeroOn p obj start _ mask hub _ hg
-      rw [hcur]; exact ih.1
+      rw [hcur]; exact zeroOn_fillMask mask _
     · show (updateEstimate p obj start (loop p obj start (n + 1) ⟨img, d, start⟩)).image.length ≤ img.length
       refine le_trans (updateEstimate_length_le p obj start _) ?_
-      rw [hcur]; exact ih.2
+      rw [hcur]; exact le_trans (fillMask_length_le mask _) ih.2
 
 end StirVerif.C08
